@@ -54,6 +54,10 @@ def loop_sources(node, sides):
     return out
 
 
+def method_calls_(node, name):
+    return [n for n in walk(node) if n.get("k") == "mcall" and n["m"] == name]
+
+
 def run(chk, facts, tier, only=None):
     c = facts.crate("candid")
     spec = Spec()
@@ -375,11 +379,46 @@ def run(chk, facts, tier, only=None):
             chk.expect(rp == ["candid::types::subtype::OptReport::Warning"], f"entry:{fname}:report",
                        f"{fname} must run with OptReport::Warning, found {rp}")
 
+    def r6():
+        h = c.fn(r"type_env::TypeEnv::merge_type$")
+        chk.analysed(h["key"])
+        # tau renames every clashing name; every binding moved over and the returned type are rewritten with it
+        substs = {}
+        for st in nodes(h["body"], "slet"):
+            ini = unblock(st["init"]) if st.get("init") else None
+            if isinstance(ini, dict) and ini.get("k") == "mcall" and ini["m"] == "subst" and st["pat"].get("k") == "bind":
+                substs[st["pat"]["n"]] = True
+        ins = [x for x in walk(h["body"]) if x.get("k") == "mcall" and x["m"] in ("insert", "extend", "append", "entry", "try_insert")
+               and (expr_path(x["recv"]) or "") == "self.0"]
+        bad = []
+        for x in ins:
+            if x["m"] != "insert":
+                bad.append(f"{x['m']} moves bindings over without rewriting them")
+                continue
+            v = unblock(x["args"][1])
+            ok1 = (v.get("k") == "mcall" and v["m"] == "subst") or (expr_path(v) in substs)
+            if not ok1:
+                bad.append(f"insert of `{expr_path(v) or v.get('k')}` that did not go through subst(&tau)")
+        chk.expect(len(ins) >= 1 and not bad, "merge_type:every-binding-rewritten",
+                   f"TypeEnv::merge_type must apply the renaming to every binding it copies from the other environment: a binding that keeps its own "
+                   f"name can still refer to a renamed one, and would otherwise silently resolve to the *new* interface's definition ({bad})",
+                   ok_detail=f"{len(ins)} insert(s), all of subst(&tau) results")
+        tail = unblock(h["body"].get("e")) if h["body"].get("e") else None
+        rets = [unblock(r["e"]) for r in nodes(h["body"], "ret") if r.get("e")]
+        outs = ([tail] if tail is not None else []) + rets
+        chk.expect(bool(outs) and all(o.get("k") == "mcall" and o["m"] == "subst" and expr_path(o["recv"]) == "ty" for o in outs),
+                   "merge_type:returned-type-rewritten", "TypeEnv::merge_type must return ty.subst(&tau) on every path")
+        # tau maps exactly the clashing names, to fresh names
+        filt = [x for x in method_calls_(h["body"], "filter")]
+        chk.expect(len(filt) == 1 and any(y.get("k") == "mcall" and y["m"] == "contains_key" and (expr_path(y["recv"]) or "") == "self.0" for y in walk(filt[0])),
+                   "merge_type:clashes-are-renamed", "TypeEnv::merge_type must rename every name of the other environment that is already bound in self")
+
     for rid, desc, fn in (("C05.R1", "subtype_: every constructor pair is decided as the spec's rules decide it", r1),
                           ("C05.R2", "subtype_collect_ and equal_impl agree with their sibling / with structural equality", r2),
                           ("C05.R3", "memo discipline: assume before unfold, retract on failure, roll back after a failed probe", r3),
                           ("C05.R4", "variance, iteration side and lookup side of every structural rule", r4),
-                          ("C05.R5", "entry points pass (new, merged old) in that order and share the report mode", r5)):
+                          ("C05.R5", "entry points pass (new, merged old) in that order and share the report mode", r5),
+                          ("C05.R6", "merging the old interface's environment renames clashes and rewrites every binding", r6)):
         if only and only != rid:
             continue
         chk.run_rule(rid, desc, fn)
